@@ -363,7 +363,7 @@ func runRaw(t *testing.T, cfg rawCfg, seed int64) (sim.Result, rec.Ev) {
 				p.Release()
 			}
 		}
-		c.step("adv 1000s")
+		c.step("adv 600s")
 		s.Wait()
 		g := sim.Census()
 		sort.Strings(g)
@@ -462,6 +462,34 @@ func rawScripted(p rawProto) []rawCfg {
 	}
 }
 
+// deadline grid (C18): a blocked call returns at exactly its deadline, never before; a call that can
+// complete at once is not failed by it; best effort never blocks; fail-no-peers fails at once
+func rawDeadline(p rawProto) []rawCfg {
+	var out []rawCfg
+	us := time.Microsecond
+	for _, d := range []time.Duration{1 * us, time.Millisecond, time.Second, 300 * time.Second} {
+		just := (d - us).String()
+		// send side: fill whatever queue there is behind a slow peer, then one more
+		c := rawCfg{P: p, TTL: 8, SQ: 1, RQ: 1, SendExp: d, RecvExp: d}
+		c.Steps = []string{"recv", "adv " + just, "adv 1us", "conngated", "send ok", "send ok", "send ok", "adv " + just, "adv 1us",
+			"release p1", "send ok", "adv " + d.String(), "inj p1 ok", "recv", "recv", "adv " + just, "adv 1us"}
+		out = append(out, c)
+		c2 := c
+		c2.SQ, c2.RQ = 0, 0
+		if p.eng == "xpush" {
+			c2.SQ = 1 // WriteQLen 0 on PUSH is the recorded known finding (own scenario)
+		}
+		c2.Steps = []string{"send ok", "adv " + just, "adv 1us", "conn", "recv", "adv " + just, "inj p1 ok", "adv 1us", "send ok", "recv", "adv " + d.String()}
+		out = append(out, c2)
+	}
+	be := rawCfg{P: p, TTL: 8, SQ: 1, RQ: 1, BestEffort: true, Steps: []string{"send ok", "send ok", "conngated", "send ok", "send ok", "send ok", "send ok", "adv 1s", "release p1", "send ok"}}
+	out = append(out, be)
+	fnp := rawCfg{P: p, TTL: 8, SQ: 1, RQ: 1, FailNoPeers: true, SendExp: 5 * time.Second,
+		Steps: []string{"send ok", "recv", "conngated", "send ok", "send ok", "send ok", "drop p1", "send ok", "conn", "send ok", "drop p2", "send ok"}}
+	out = append(out, fnp)
+	return out
+}
+
 func TestRaw(t *testing.T) {
 	only := os.Getenv("VERIF_RAW_PROTOS") // comma separated engine or protocol names
 	rng := rand.New(rand.NewSource(seed()))
@@ -471,6 +499,9 @@ func TestRaw(t *testing.T) {
 		}
 		out := newOut(t, "raw_"+p.name)
 		cfgs := rawScripted(p)
+		if os.Getenv("VERIF_MIX") == "deadline" {
+			cfgs = rawDeadline(p)
+		}
 		for i := 0; i < count(30, 400); i++ {
 			cfgs = append(cfgs, rawRandom(p, rng))
 		}
